@@ -65,6 +65,11 @@ class Site:
     def parent(self):
         return re.sub(r"(::\{closure#\d+\})+$", "", self.fn)
 
+    @property
+    def key_fn(self):
+        """Function key without closure ordinals (`f::{closure#2}` → `f::{closure}`): adding or removing an unrelated closure must not re-key a site."""
+        return re.sub(r"\{closure#\d+\}", "{closure}", self.fn)
+
     def where(self):
         return self.sp
 
@@ -128,6 +133,18 @@ def _is_const_op(op):
     return isinstance(op, dict) and "c" in op
 
 
+_EB = {}
+
+
+def _const_int(site, c):
+    """Integer value of a MIR constant operand: a literal, or a named const folded from its initialiser."""
+    if "int" in c:
+        return int(c["int"])
+    if "def" in c and _EB.get("eb") is not None:
+        return _EB["eb"].const_int(c["def"])
+    return None
+
+
 def auto_const_fold(site):
     """assert whose condition is computed from constants only."""
     if site.kind != "assert":
@@ -139,11 +156,11 @@ def auto_const_fold(site):
     if cl is not None and not M.place_proj(M.op_place(t["cond"])):
         d = _stmt_def_in_block(site.body, site.bi, cl)
         if d and d["rv"]["k"] == "binop" and _is_const_op(d["rv"]["a"]) and _is_const_op(d["rv"]["b"]):
-            a, b = d["rv"]["a"]["c"], d["rv"]["b"]["c"]
-            if d["rv"]["op"] == "Eq" and "int" in a and "int" in b:
-                if (int(a["int"]) == int(b["int"])) != bool(t["expected"]):
+            a, b = (_const_int(site, x["c"]) for x in (d["rv"]["a"], d["rv"]["b"]))
+            if d["rv"]["op"] == "Eq" and a is not None and b is not None:
+                if (a == b) != bool(t["expected"]):
                     return None
-                return "condition `%s == %s` is constant and never fails" % (a["int"], b["int"])
+                return "condition `%s == %s` is constant and never fails" % (a, b)
     return None
 
 
@@ -691,9 +708,15 @@ def run(F, R, tier):
     gates_ok = check_gates(F, R)
     check_unsafe(F, R)
     bounds = Bounds(F)
+    _EB["eb"] = bounds.eb
     table = {}
     for fn, what, n, cls, arg, reason in TABLE:
-        table[(fn, what)] = (n, cls, arg, reason)
+        k = (re.sub(r"\{closure#\d+\}", "{closure}", fn), what)
+        if k in table:   # two closures of one function with the same construct: counts add up
+            n0, cls0, arg0, reason0 = table[k]
+            table[k] = (n0 + n, cls0, arg0, reason0 if reason0 == reason else reason0 + " / " + reason)
+        else:
+            table[k] = (n, cls, arg, reason)
     groups = {}
     counts = {"CONST": 0, "INTERVAL": 0, "TOTAL": 0, "GUARD": 0, "GATE": 0, "RULE": 0, "REVIEWED": 0, "OPEN": 0}
     ctxs = {}
@@ -717,7 +740,7 @@ def run(F, R, tier):
             counts[s.cls] += 1
             r1.site("%s: %s [%s] %s" % (short(s.fn), s.what, s.cls, s.why), s.sp)
             continue
-        groups.setdefault((s.fn, s.what), []).append(s)
+        groups.setdefault((s.key_fn, s.what), []).append(s)
 
     used = set()
     for (fn, what), ss in sorted(groups.items()):
